@@ -55,6 +55,7 @@ type clock struct{ ch chan time.Time }
 
 func (c *clock) Now() time.Time { return time.Unix(0, 0) }
 func (c *clock) NewTicker(time.Duration) *time.Ticker {
+	vsched.Yield() // creating the ticker takes time: a scheduling point inside the syncer's lazy initialisation
 	return &time.Ticker{C: c.ch}
 }
 
@@ -866,6 +867,14 @@ func main() {
 			}
 		}
 	}
+	if thorough {
+		// one size one level deeper
+		for a := 0; a < nOps; a++ {
+			for b := 0; b < nOps; b++ {
+				items = append(items, fmt.Sprintf("seq|4|%d|%d,%d", depth+1, a, b))
+			}
+		}
+	}
 	ddepth := 3
 	if thorough {
 		ddepth = 4
@@ -981,6 +990,7 @@ func main() {
 		"rule":                          "every op sequence (sequential) / every schedule within the preemption bound (concurrent) is one execution of the real BufferedWriteSyncer; distinct = distinct canonical end observations (sink order, number of sink calls, held bytes)",
 		"sequential_items":              nseq,
 		"sequential_depth":              depth,
+		"sequential_depth_note":         "thorough: size 4 additionally to depth+1",
 		"concurrent_drivers":            nconc,
 		"preemption_bound":              pre,
 		"executions_with_branching":     sum.Branching,
